@@ -616,7 +616,10 @@ func (p *Parser) parseSlots() []*ast.SlotStmt {
 			Body:  p.parseBody(),
 		})
 
-		p.nextToken() // skip block statement
+		if !p.expectPeek(token.END) { // move to "@end"
+			return nil
+		}
+
 		p.nextToken() // skip "@end"
 
 		for p.curTokenIs(token.HTML) {
@@ -696,6 +699,10 @@ func (p *Parser) parseInsertStmt() ast.Statement {
 
 	if hasBody {
 		stmt.Block = p.parseBody()
+
+		if !p.expectPeek(token.END) { // move to "@end"
+			return nil
+		}
 	}
 
 	p.inserts[stmt.Name.Value] = stmt
